@@ -963,7 +963,9 @@ def _run_case(ctx, case):
             return False
         mb.sync_from_fit()
         free_idx = [i for i, n in enumerate(mb.ref.model.pnames) if n not in mb.ref.fixed]
-        if cur["errors"] is None or not np.all(np.isfinite(cur["errors"][free_idx])) or np.any(cur["errors"][free_idx] <= 0):
+        # (an uncertainty below the floating-point resolution of the value it belongs to is as good as zero: seen 1.7e-46 on a
+        # logistic model fitted into a step function, where numdifftools then has no step to differentiate with)
+        if cur["errors"] is None or not np.all(np.isfinite(cur["errors"][free_idx])) or np.any(cur["errors"][free_idx] <= 4 * np.finfo(float).eps * np.abs(np.asarray(mb.fit.parameter_values, dtype=float)[free_idx])):
             ctx.discard("fit-degenerate-no-valid-parameter-errors")
             return False
         if not np.all(np.isfinite(mb.ref.p)) or not mb.admissible():
